@@ -40,7 +40,7 @@ CHECKS = {
   note="Trusted: the Go runtime's checkptr instrumentation (turns an out-of-bounds pointer view into a deterministic throw), the step counter inserted by the instrumenter, the parent's death classification. Hostile shapes no fault produces (300-deep nesting, huge numbers) are outside this check."),
  "C12": dict(
   level="exploration",
-  text="N caller goroutines (2..6 tasks) apply read-only operations to one shared vocabulary value and decode private inputs under a seeded scheduler that decides every interleaving at library-statement granularity (random walk, PCT, preempt-at-site); three oracles: ThreadSanitizer (tasks handed off through raw pipe syscalls so they stay unordered for the race detector), deep write-freedom fingerprint over the whole reachable memory incl. spare slice capacity at every switch, and equality of every result with the sequential result. Seeded sampling of schedules; failing schedules are minimised (fewer tasks, ops, switches) and replay exactly.",
+  text="N caller goroutines (2..6 tasks) apply read-only operations to one shared vocabulary value and decode private inputs under a seeded scheduler that decides every interleaving at library-statement granularity (random walk, PCT, preempt-at-site); four oracles: ThreadSanitizer (tasks handed off through raw pipe syscalls so they stay unordered for the race detector), deep write-freedom fingerprint over the whole reachable memory incl. spare slice capacity at switches and operation returns, equality of every result with the sequential result (incl. values a task decoded earlier and kept), and no overlap between an encoder's returned bytes and the shared value. Cold-start runs (first run of a fresh process, concurrent phase before any sequential pass) expose unsynchronised lazy initialisation; Lock/RLock/Once.Do are made cooperative so that correctly synchronised code stays quiet. Seeded sampling of schedules; failing schedules are minimised (fewer tasks, ops, switches) and replay exactly.",
   ref="§3", technique="deterministic simulation: seeded statement-granularity scheduler over real goroutines + race detector + memory fingerprint + sequential-equivalence oracle, schedule minimisation, exact replay",
   note="Trusted: ThreadSanitizer, the instrumenter's yield placement (segments inside dependencies are atomic in the simulation, though their accesses are still seen by the race detector), the fingerprint walker. Mutators are excluded by an explicit, justified list."),
 }
